@@ -14,7 +14,7 @@ prop('C12',
      thorough=dict(sweep=True, pbt=(1600000, 600, 10), fuzz=(8000000, 600, 5)),
      floor=dict(quick=100000, thorough=1000000), alloc_cap_mb=4,
      rule=("Histories of 1..40 operations {Read, ReadPartial, Peek, Seek, SeekForward, SeekBackward, SeekBeginning, SeekEnd, "
-           "typed fixed/container/size-prefixed/NUL-string reads} with arguments from the boundary table {0,1,len-1,len,len+1,rem-1,rem,rem+1,"
+           "typed fixed/container/size-prefixed/NUL-string reads incl. the std::string overloads} with arguments from the boundary table {0,1,len-1,len,len+1,rem-1,rem,rem+1,"
            "2^31,2^32,2^63,2^64-1,2^64-pos,...} decoded from a byte tape (rapidcheck + libFuzzer), run on MemoryReader, MemoryReader slice, "
            "FileSliceReader, slice-of-slice (memory and file) over a 0..64 byte source (one case in eight 256..705 bytes; thorough: ..5000) with planted size prefixes; "
            "oracle = (bytes, cursor) model checked after every operation plus a closing drain. Sweep: all 2-operation histories over the "
@@ -59,9 +59,9 @@ prop('C14',
            "operations {Write(k), typed writes, Seek, SeekForward, SeekBackward, SeekBeginning/End} and boundary arguments "
            "{0,1,len-1,len,len+1,rem-1,rem,rem+1,2^31,2^32,2^63,2^64-1,2^64-pos,...}; (b) DynamicMemoryWriter histories incl. growth seeks <=1 MiB "
            "and {2^40,2^63,2^64-1} which must fail cleanly; (c) size-prefixed writes of containers at/beyond each prefix maximum (i8,u8,i16,u16,u32,i32); "
-           "(d) typed write -> typed read inverse; (e) Writer::Write<Chunk>(Reader&) for Chunk in {1,2,3,7,16,4096,131072,default} x source length "
+           "(d) typed write -> typed read inverse incl. std::string, std::u16string and std::u32string in plain and size-prefixed form; (e) Writer::Write<Chunk>(Reader&) for Chunk in {1,2,3,7,16,4096,131072,default} x source length "
            "classes {0,1,C-1,C,C+1,2C-1,2C+1,3C+5,random} x start x source backend {memory,file,memory slice,file slice} x destination {dynamic,fixed,file}; "
-           "(f) FileWriter open flags x file exists x data. Oracle: array/vector + cursor model compared after every operation, canaries intact; "
+           "(f) FileWriter open flags x file exists x data (up to 70001 bytes), written in one call, in three calls, through a move-constructed writer, or through a writer moved into a heap object whose original is destroyed before the data is written. Oracle: array/vector + cursor model compared after every operation, canaries intact; "
            "refusal iff the container exceeds the prefix maximum; destination == source[start..] and reader at its end; file system state per flag semantics. "
            "Sweep: full (c) matrix, full (e) matrix (8x8x4x3x2), full (f) matrix (16 flag sets x exists x 3 data variants), all 2-step MemoryWriter "
            "histories over 5 operations x 14 boundary classes on a 5-byte buffer. Non-trivial = history with a refused operation followed by a successful "
@@ -81,7 +81,7 @@ prop('C19',
      rule=("Sweep (exhaustive): all 820 strings of length <=3 over {a,A,b,Z,z,0,_,.,/} - every unordered pair for asymmetry, IsEqual == ASCII case-fold "
            "equality == incomparability, PathsAreEqual symmetry and containment of IsEqual; every triple of the 91 strings of length <=2 for transitivity of "
            "the order, of incomparability and of PathsAreEqual; per string irreflexivity/reflexivity, p ~ ./p for every relative p (plain and directory-"
-           "qualified counted separately), split+re-join for every p with a file-name component; join law over 91x820 (dir, name) pairs; extension law over "
+           "qualified counted separately), split+re-join for every p with a file-name component; the full PathsAreEqual relation matrix over the 820 strings plus 158 redundant spellings (a//b, a/./b, ./a/b/, a/. ...) checked for reflexivity, symmetry and transitivity; join law over 91x820 (dir, name) pairs; extension law over "
            "820 names x 7 extensions x 8 case masks x dot/no-dot; IsPowerOf2 against popcount for all values with <=3 bits set, their +-1 neighbours and "
            "complements plus 2^24 pseudo-random values (thorough: all 2^32 values), Log2OfPowerOf2 for all 32 powers. pbt/fuzz: random strings <=40 bytes "
            "incl. bytes >=0x80, punctuation between the letter cases, case variants, prefixes, path-shaped strings, name lists (sort yields a sorted "
@@ -126,7 +126,7 @@ prop('C04',
            "position-code length classes incl. 1, 4096 and matches overlapping the write cursor or reaching into the space-filled window). Each input is decoded by an "
            "independent reference decoder (4 KiB space-filled window, 314-symbol adaptive Huffman, bits past the end read as 0, stop test after each code, error at "
            "the 65222nd update) and by the library twice: through GetInternalBuffer until it reports 0 and through GetData with a cyclic schedule of sizes from "
-           "{1,2,3,61,62,63,4033,4034,4035,4095,4096,4097,10000,random}; in half the cases a third decoder is drained through BOTH interfaces interleaved in one session (2..6-step cyclic schedule of GetInternalBuffer / GetData(k), k incl. 96,1000,3000,4096,8192: copies adding up to multiples of the window followed by the internal interface); one case in six also extracts the stream as an LZH member of a reference-encoded VOL. "
+           "{1,2,3,61,62,63,4033,4034,4035,4095,4096,4097,10000,random}; in half the cases a third decoder is drained through BOTH interfaces interleaved in one session (2..6-step cyclic schedule of GetInternalBuffer / GetData(k), k incl. 96,1000,3000,4096,8192: copies adding up to multiples of the window followed by the internal interface); one case in six also extracts the stream as an LZH member of a reference-encoded VOL and, with its half and its first byte as two more LZH members, in the order 0,1,2,1,0,2 through ONE archive object (every file must be its own decode). "
            "Oracle: outputs equal the reference; beyond capacity the library must throw and what it delivered must be a prefix of the reference output; termination "
            "by output limit + watchdog. Sweep: 58 lengths x 14 boundary distances; a 2600-token window-wrapping stream under every drain size and 28 mixed-interface schedules ({4096},{1000,3000,96},{4095},{4097},{1},{2048,2048},{8192},{61,4035},{4034,62} copies x internal call before/after/twice; 4096 single-byte copies then internal); every prefix of an "
            "encoded stream; four capacity-crossing inputs and the exact capacity edge. Non-trivial = output > 4096 bytes (window wrap) or >= 1 match; distinct = hash of input."),
@@ -143,8 +143,8 @@ prop('C01',
      thorough=dict(sweep=True, pbt=(200000, 2500, 11), fuzz=(400000, 2500, 4), stage_timeout=3400),
      floor=dict(quick=5000, thorough=100000), alloc_cap_mb=64,
      rule=("File sets decoded from a tape: 0..12 files (thorough ..40), sizes from {0,1,2,3,4,5..64,131071..131075,262143..262146,<=40000 (thorough 300000),<300}, pseudo-random "
-           "contents, names of 1..24 characters over letters of both cases, digits and the punctuation _^[]`-.,+=@#~!(){} and space (distinct ignoring case), placed in ./in/, "
-           "./in/d0/, ./in/d1/sub/, listed in a tape-chosen permutation and spelling (x, ./x, d//x, d/./x, absolute); output path spelled five ways, pre-existing in half the cases. "
+           "contents, names of 1..24 characters over letters of both cases, digits and the punctuation _^[]`-.,+=@#~!(){} and space (distinct ignoring case; one later name in four extends an earlier name in another letter case by .txt/.old/x/_/0/./space - prefix-related names), placed in ./in/, "
+           "./in/d0/, ./in/d1/sub/, listed in a tape-chosen permutation and spelling (x, ./x, d//x, d/./x, absolute); output path spelled five ways, pre-existing in half the cases, or (one case in eight) placed next to an input under a name that is a proper prefix of that input's name. "
            "Oracle: archive reopened with VolFile lists n members in reference (_stricmp) order of the final path components with exact sizes and the uncompressed kind; member "
            "streams drained with tape-chosen read sizes, ExtractFile by case-varied name and ExtractAllFiles all return the input bytes; Contains/GetIndex succeed in three case "
            "variants; inputs unmodified. One case in eight lists two inputs equal ignoring case (same or different directories), one in eight lets the output path name an input "
@@ -190,7 +190,7 @@ prop('C05',
            "append) + up to 24 call records (GetCount, GetName, GetSize, GetCompressionCode, GetIndex, Contains, OpenStream+read, ExtractFile; index 0..8, 2^32-1, 2^64-1..) followed by "
            "the full call table for indices 0..7 twice plus extract/extract/stream/stream/extract on each index in a row; libFuzzer also mutates raw archive/WAV bytes from the seed corpus. Oracle: no sanitizer report, no reproduced hang, only "
            "std::exception; every call outcome on the long-lived object equals the outcome of the same call on a fresh object (failed calls leave it usable); indices >= count refused; "
-           "a delivered member stream/extraction is exactly file[offset+8,+VBLK length) (CLM: [dataOffset,+dataLength)) per the harness' own parse, and a recorded extent outside the "
+           "an over-long read on a member stream is refused and leaves its position, after which the whole member is still delivered; a delivered member stream/extraction is exactly file[offset+8,+VBLK length) (CLM: [dataOffset,+dataLength)) per the harness' own parse, and a recorded extent outside the "
            "file is never delivered - for compressed members too (extraction must be refused, not run on the bytes that are left); WAV bytes given to CLM creation end in an error or a re-openable archive. Non-trivial = archive opens and a per-member call succeeds after "
            "another failed, or a corruption rejected beyond the first tag check; distinct = hash of bytes and calls."),
      sweep_what="all prefixes and (field x boundary value) substitutions of 6 VOL + 3 CLM + 6 WAV seeds, coordinated index/name-table corruptions",
@@ -225,7 +225,7 @@ prop('C17',
      thorough=dict(sweep=True, pbt=(100000, 700, 11), fuzz=(200000, 700, 4), stage_timeout=3400),
      floor=dict(quick=1500, thorough=50000), alloc_cap_mb=64,
      rule=("Directory layouts decoded from a tape inside a digit-named scratch directory: 0..6 loose files, 0..3 VOL and 0..2 CLM archives written by independent encoders, names drawn "
-           "from a 14-name pool chosen so that loose files and members collide in all letter-case variants (a.txt/A.TXT/a.TXT, b.dat/B.dat, trk1/TRK1, ...), archives optionally with "
+           "from a 16-name pool (incl. .a.txt and ..b.dat, whose leading dots are not a ./ prefix) chosen so that loose files and members collide in all letter-case variants (a.txt/A.TXT/a.TXT, b.dat/B.dat, trk1/TRK1, ...), archives optionally with "
            "duplicate member names, VOL archives optionally with 1..3 unused trailing index slots (stale fields zero or random), optionally with upper-case extensions (not loaded), optional sub-directory, directories named 8.vol and 9.clm. Per layout: archive-level laws on each "
            "archive (Contains <=> GetIndex does not throw <=> model; index names the first member equal ignoring case and './'; GetIndex(GetName(i))==i when duplicate-free; every "
            "per-member call incl. GetCompressionCode refuses indices count..count+3 (unused slots), 2^32-1 and 2^64-1), then 20 GetResourceStream queries (pool names in random case, with/without './', unknown, sub-directory "
@@ -233,7 +233,7 @@ prop('C17',
            "paths refused, GetArchiveFilenames = .vol files then .clm files, type listings for 8 extensions x archives on/off (loose files by exact dot-extension, then exactly one "
            "member per new name class, case-blind) and pattern listings for 8 letter patterns (multiset equality). Sweep: each pool name placed loose / in one / in three archives / both, "
            "6 query tapes each. Non-trivial = a query whose name exists both loose and in an archive, only in an archive (possibly in another case), or is hidden by disabled archive access."),
-     sweep_what="each of 14 pool names x {loose only, one archive, three archives, loose + three archives} x 6 query tapes",
+     sweep_what="each of 16 pool names x {loose only, one archive, three archives, loose + three archives} x 6 query tapes",
      assumptions=["Linux case-sensitive directory; archives are picked up by exact '.vol'/'.clm' extension", "which of several archives holding a name wins is not asserted",
                   "pattern listings match loose files by their path below the (digit-named) resource directory as the implementation documents; patterns are letter-only and unanchored at the start"],
      title="Name lookup and resource resolution are case-blind, consistent, loose-file-first",
@@ -287,7 +287,7 @@ prop('C07',
            "with all fields equal; every header/length field x {0,1,5,8..11,16,20,30..33,63,64,255,2^16,2^31-1,2^31,2^32-1,0x100F,0x1010,v+-1}; all 17x13 (log2 width, height) pairs incl. log2 >= 32 and "
            "products beyond 2^32 on a tile-less map (so a wrapped tile count would be accepted); saved games (0x1E025 filler bytes + map beginning + tag + unit block with 0..2 object-1 records, "
            "0..3 object-2 words, optional free-unit table + tag): result equals ReadMap on a map file embedding the same map portion (dimensions, tiles, clip rectangle, sources, mappings, terrain "
-           "types), bad unit size rejected, prefixes every 97th byte and +-8 around each field boundary (thorough: all ~370000 prefixes of one saved game), every saved-game field x boundary values. "
+           "types), bad unit size rejected, unit sizes 0,1,64,119,121,240,2^32-1 with NO units recorded accepted as the same map, prefixes every 97th byte and +-8 around each field boundary (thorough: all ~370000 prefixes of one saved game), every saved-game field x boundary values. "
            "pbt/fuzz: structure-aware tapes (generated map or saved game + 1..3 corruptions: field boundary value, truncation, byte flip) through MemoryReader and file entry points, generated "
            "valid maps with sampled prefixes, saved-game equivalence on generated maps, and raw bytes into ReadMap (libFuzzer, seeded with the 4 maps). Oracle: ordinary error, or a map whose "
            "width is 2^(log2 field) < 2^32 and whose tile array has exactly width x height entries computed in 64 bits; no sanitizer report (over-wide shifts are UBSan-fatal); watchdog. "
@@ -324,8 +324,8 @@ prop('C08',
      thorough=dict(sweep=True, pbt=(1500000, 900, 11), fuzz=(8000000, 900, 5), stage_timeout=3400),
      floor=dict(quick=50000, thorough=1000000), alloc_cap_mb=128,
      rule=("File family: indexed bitmaps emitted by an independent encoder from a tape - depth 1/4/8, width 0..70 (every residue of row bits mod 32) plus {100,255,256,257,1000,4097}, height "
-           "-40..40 incl. 0 plus {+-300}, full table (used colours 0) or partial 1..2^depth, random palette, random pixels WITH random row padding, arbitrary resolution/image-size/important-colour/"
-           "reserved fields, optionally size and pixel offset both shifted. Factory family: CreateIndexed(depth,w,h[,palette[,pixels]]) with partial/full palettes and pixels random in the "
+           "-40..40 incl. 0 plus {+-300}, full table (used colours 0) or partial 1..2^depth, random palette, random pixels WITH random row padding, arbitrary resolution/image-size (random, 0, or exactly the pixel byte count)/important-colour/"
+           "reserved fields, one file in ten with a non-zero compression field (oracle: refused, or accepted and lawful), optionally size and pixel offset both shifted. Factory family: CreateIndexed(depth,w,h[,palette[,pixels]]) with partial/full palettes and pixels random in the "
            "meaningful bytes. Oracle: the reader's fields equal the logical bitmap; Validate() passes; width >= 0; pixels.size() == pitch(w,depth)*|h| computed independently; palette <= 2^depth; "
            "WriteIndexed output parsed by a strict independent parser (headers describe the file, all row padding zero) and read back with the same width, signed height, depth, every palette entry "
            "at its index and every meaningful pixel byte preserved; factory objects round-trip to operator== equality; InvertScanLines once reverses the rows exactly and negates the height, twice "
@@ -344,7 +344,7 @@ prop('C09',
      rule=("Pictures decoded from a tape: height 32*k (k 0..8 and {31,32,33,47,63,64,65,100}, thorough ..64), 256 pseudo-random colours (one in six grey so red==blue), pseudo-random pixels, built with the factory in BOTH scan-line "
            "orientations. Oracle per picture and orientation: WriteCustomTileset bytes == an independent description of the format (PBMP + 1068+32h, head 0x14 {2,32,h,8,8}, PPAL 1048, head 4 {1}, "
            "data 1024 with blue-green-red-alpha entries, data 32h with rows top-down) and identical for both orientations; the caller's bitmap is unchanged; ReadTileset of those bytes gives the same "
-           "logical rows and colours in top-down orientation; ReadTileset of the picture stored as a standard bitmap gives the same picture in the stored orientation. Partial-colour-table pictures (one case in seven; sweep k in {1,2,16,255} x heights 0,32,64 x both orientations): the picture stored as a standard bitmap with k < 256 used colours loads with a k-entry palette, its custom-format bytes still have every section of the described shape (256-entry palette section; the unused entries are not prescribed) and load back to the same rows and k colours. Signature cases: random "
+           "logical rows and colours in top-down orientation; ReadTileset of the picture stored as a standard bitmap - written by the library and, in three variants (plain; image size + resolution stated; used/important colour counts stated), by an independent encoder - gives the same picture in the stored orientation. Partial-colour-table pictures (one case in seven; sweep k in {1,2,16,255} x heights 0,32,64 x both orientations): the picture stored as a standard bitmap with k < 256 used colours loads with a k-entry palette, its custom-format bytes still have every section of the described shape (256-entry palette section; the unused entries are not prescribed) and load back to the same rows and k colours. Signature cases: random "
            "prefixes / PBMP / one-bit neighbours / 'BM' at stream positions 0 and > 0: PeekIsCustomTileset <=> the next four bytes are PBMP and Position() unchanged (also when it throws on a "
            "short stream). Violating pictures (depth 1/4, width != 32, height not a multiple of 32, depth/width pairs that still give 32-byte rows - 4 bit x 63..64, 1 bit x 249..256 -, arbitrary non-tileset (depth,width,height) triples) are refused by save (nothing written) and by load; custom byte strings with one validated header "
            "field replaced by boundary values are refused. Sweep: heights 0..12 and {31,32,33,40,63,64,65,75,96,100} tiles (thorough 0..130); all 32 one-bit neighbours of PBMP at two positions; 18 header fields x 20 values. "
@@ -385,7 +385,7 @@ prop('C11',
            "constructed wrap-around bitmaps: for depths 1/4/8, widths -1..-64, INT32_MIN..INT32_MIN+3, -65536, -2^28 and heights +-1..64, +-2^7..2^30, INT32_MIN, INT32_MAX, 0, every pair whose pitch x "
            "|height| is <= 4096 modulo 2^64 (pitch computed as a 64-bit size_t product on the sign-extended width) is emitted with exactly that many pixel bytes so the size cross-check passes; "
            "positive dimensions with pitch 2^a (a = 2..24) and height +-(2^(32-a) [+1]) for all three depths (pitch x |height| = 2^32 [+pitch]) carrying the byte count modulo 2^32, also as tileset-shaped bitmaps; extreme heights with small widths; custom tileset pixel heights around 2^31 and 2^32 with matching data lengths modulo 2^32; PRT counts replaced by values near 2^32 and by values whose "
-           "product with the record size wraps. pbt/fuzz: a seed file + 1..3 mutations (field boundary value, truncation, byte, append) and raw bytes per loader from the seed corpus (libFuzzer). On "
+           "product with the record size wraps; PRT images with width 0/1/4 x scan line 0/4 x palette index at/after the palette count x 0..1 palettes; a tileset-shaped standard bitmap with a 7-entry colour table among the seeds. pbt/fuzz: a seed file + 1..3 mutations (field boundary value, truncation, byte, append) and raw bytes per loader from the seed corpus (libFuzzer). On "
            "every accepted object the follow-up operations run under ASan/UBSan: Validate, AbsoluteHeight, WriteIndexed (stream and file), InvertScanLines x2, SwapRedAndBlue, WriteCustomTileset, the "
            "Verify* helpers; for PRT: Write, the 64-bit cross-field rules, VerifyImageIndexInBounds for 0, n-1, n, n+1, 2^64-1 (must refuse >= n) and SpriteLoader::ExtractImage for every index "
            "0..n+1 and 2^64-1 against pixel files of length 0, 100, header+64 and header+70000 (indices >= n must be refused). Oracle: no sanitizer report, no hang, only std::exception, prefixes "
@@ -404,7 +404,7 @@ prop('C18', extra_flavours=['varZ', 'varP'],
      rule=("Scenarios decoded from a tape, seven kinds: (0) VOL creation from 0..5 generated files (half of the later names extend an earlier name in another letter case: prefix-related names) + reopen listing + extraction; (1) CLM creation from 0..4 generated WAVs (chunks before/after the data) "
            "+ listing + every extracted WAV; (2) maps: a DEFAULT-CONSTRUCTED Map written as is, generated maps parsed then dumped field by field and re-written, edited maps, saved games; (3) bitmaps "
            "from the three factory overloads and from parsed files, dumped, written and flipped; (4) custom tileset written and re-loaded; (5) PRT parsed, every field incl. the optional frame bytes "
-           "dumped, re-written, plus a value-initialised empty ArtFile written; (6) an LZH member of a reference-encoded volume whose first matches reach back before the start of the output (window never written, must read as spaces) extracted through VolFile and decoded through HuffLZ::GetData. The driver (ASan build) runs each scenario THREE times: in a child built with -ftrivial-auto-var-init=zero whose heap "
+           "dumped, re-written, plus a value-initialised empty ArtFile written; (6) an LZH member of a reference-encoded volume whose first matches reach back before the start of the output (window never written, must read as spaces) extracted through VolFile and decoded through HuffLZ::GetData, plus two LZH members of different packed size extracted through one archive object in an order that differs between the runs. The driver (ASan build) runs each scenario THREE times: in a child built with -ftrivial-auto-var-init=zero whose heap "
            "blocks are pre-filled with 0x00, in a child built with -ftrivial-auto-var-init=pattern whose heap blocks are pre-filled with 0xD7 (MALLOC_PERTURB_ set, stack scribbled with other bytes, "
            "other working directory and address layout, VOL/CLM inputs listed in reverse order and spelled './...'), and in-process under ASan's own malloc fill. Each run emits every output byte "
            "string in hex and a canonical text dump of every parsed structure; the three emissions must be byte-identical. Non-trivial = scenario that serialises at least one header record built "
